@@ -146,7 +146,7 @@ def run(chk, tier):
 
     # ---- R3 ---------------------------------------------------------------------------------------------
     chk.rule('R3', 'every Err exit of TracerInner::run/run_with passes through handle_error; handle_error records the message', floor=8)
-    eng1 = Engine(prog, inline_depth=1)
+    eng1 = Engine(prog, inline_depth=1, opaque=[r'TracerInner::handle_error$'])      # the call itself is what is looked for, however it is spelled (map_err / match)
     for nm in ('run', 'run_with'):
         f = prog.find(r'tracer::inner::TracerInner::%s$' % nm)
         chk.fn_seen(f['path'])
@@ -333,7 +333,8 @@ def run(chk, tier):
         val = vshow(o.value)
         io = d.get('discr(err)') == IO
         inprog = io and d.get('discr(%s)' % KIND) == kinds.index('InProgress')
-        want = 'Result::Ok(unit)' if inprog else ('Result::Err(Error::IoError(err#IoError.0))' if io else 'Result::Err(err)')
+        # on a trace that decided `err` is the IoError variant, `err` and `Error::IoError(<its payload>)` are the same value
+        want = 'Result::Ok(unit)' if inprog else (('Result::Err(Error::IoError(err#IoError.0))', 'Result::Err(err)') if io else 'Result::Err(err)')
         _row(chk, 'R5', 'in_progress:io=%s,inprogress=%s' % (io, inprog), f, val, want)
     f, outs = table(r'ErrorMapper::addr_in_use$', [('sym', 'err'), ('sym', 'addr')])
     for o in outs:
@@ -343,7 +344,7 @@ def run(chk, tier):
         std = io and d.get('discr(%s)' % KIND) == kinds.index('Std')
         inner = d.get('discr(field:0(%s))' % KIND)
         aiu = std and isinstance(inner, int)
-        want = 'Error::AddressInUse(addr)' if aiu else ('Error::IoError(err#IoError.0)' if io else 'err')
+        want = 'Error::AddressInUse(addr)' if aiu else (('Error::IoError(err#IoError.0)', 'err') if io else 'err')
         _row(chk, 'R5', 'addr_in_use:io=%s,std=%s,kind=%s' % (io, std, inner if isinstance(inner, int) else 'other'), f, val, want)
         if aiu and inner != 8:     # std::io::ErrorKind::AddrInUse has discriminant 8 in this toolchain's std
             chk.notes.append('addr_in_use matches std::io::ErrorKind discriminant %s' % inner)
@@ -373,10 +374,10 @@ def run(chk, tier):
 
 
 def _row(chk, rid, inst, f, val, want):
-    if val == want:
+    if val == want or (isinstance(want, tuple) and val in want):
         chk.ok(rid, inst, val)
     else:
-        chk.fail(rid, inst, fn_loc(f), '%s: returns %s, required %s' % (inst, val, want), key='%s|%s' % (rid, inst))
+        chk.fail(rid, inst, fn_loc(f), '%s: returns %s, required %s' % (inst, val, want[0] if isinstance(want, tuple) else want), key='%s|%s' % (rid, inst))
 
 
 def _mapper_chain(prog, fn):
